@@ -95,6 +95,7 @@ func checkC01(c *Ctx) {
 	c.Clause("every path of ServeHTTP on which the proxy call panics (http.ErrAbortHandler after a mid-body backend failure) leaves by that panic: a truncated response is never completed as a clean one")
 	c.Clause("the status-capturing wrapper forwards every status (1xx and final), keeps no per-response state from an earlier request, does not retain the caller's slice in Write, and restores the headers set before proxying after httputil empties the map for an interim response")
 	c.Clause("copy buffers handed to the reverse proxy are exclusive to one copy (a pool that hands out only what was put back, or fresh slices)")
+	c.Clause("a backend's base URL and reverse proxy are built from url.Parse's own result for the registered address, on every path (a URL re-assembled from Scheme/Host/Path drops RawPath and re-codes an escaped base path)")
 	c.NotDecided("what net/http and httputil do with the bytes (hop-by-hop headers, framing, 1xx, HEAD); path/query joining for backend base paths; timing of flushes")
 
 	ws := c.wrappers()
@@ -217,6 +218,9 @@ func checkC01(c *Ctx) {
 		c.Fail("proxy-not-customised", "httputil.ReverseProxy", "-", bad[0], bad...)
 	}
 	c.Floor("proxy-not-customised", len(created), 1, "NewSingleHostReverseProxy call sites")
+	// the base URL requests are joined onto is url.Parse's own result (a URL rebuilt field by field loses
+	// RawPath: an escaped base path such as /tenants/acme%2Feu reaches the backend re-coded)
+	c11OwnMachinery(c)
 	c.copyBuffersExclusive()
 	c.abortPropagates()
 	c.presetHeadersSurviveInterim()
@@ -551,7 +555,9 @@ func checkC06(c *Ctx) {
 	c.Clause("the hashing strategies' pools are written (also through helpers that append into a sub-slice) only under the strategy's write lock")
 	c.Clause("the forwarded-for value is reduced to its first element (Split / SplitN n≥2 / Cut) and trimmed before hashing; client-address headers are read through Header.Get or under their canonical map key")
 	c.Clause("jump-hash arithmetic is done at 64-bit width on the key the loop advances")
+	c.Clause("ip_hash_consistent's AddBackend only appends: the pool keeps every existing backend at its index (a pool re-ordered on insertion — sorted by name, say — moves clients between old backends)")
 	c.NotDecided("minimal remapping of the integer jump-hash variant over all 2^32 keys × pool sizes (a numeric for-all)")
+	c.consistentAppendOnly()
 
 	c.strategyHealthGuard("IPHashStrategy", "IPHashConsistentStrategy")
 	// the pool a pick is computed over is written only under the strategy's write lock: a pick that
@@ -1590,4 +1596,72 @@ func (c *Ctx) poolNewShared(poolAddr ssa.Value, depth int) string {
 	// nil, which the caller has to replace by an allocation of its own)
 	_ = found
 	return ""
+}
+
+// consistentAppendOnly: jump hash maps a key to an *index*; "appending a backend moves a client only
+// to the new backend" therefore needs the pool to keep every existing backend at its index when one is
+// added.  In IPHashConsistentStrategy.AddBackend the pool is only ever extended by append(pool, b): it
+// is not handed to anything that may permute it (sort.*, slices.*, copy, a helper) and none of its
+// elements is stored.
+func (c *Ctx) consistentAppendOnly() {
+	p := c.P
+	construct := "loadbalancer.(*IPHashConsistentStrategy).AddBackend"
+	fn := p.Fn("internal/loadbalancer", "IPHashConsistentStrategy", "AddBackend")
+	if fn == nil {
+		c.Missing("consistent-append-only", construct)
+		return
+	}
+	const key = "loadbalancer.IPHashConsistentStrategy.backends"
+	var bad []string
+	appended := false
+	fns := append([]*ssa.Function{fn}, fn.AnonFuncs...)
+	for _, f := range fns {
+		for _, a := range Accesses(f) {
+			if a.Key != key {
+				continue
+			}
+			switch a.Kind {
+			case "elem-write":
+				if ci, isCall := a.Instr.(ssa.CallInstruction); isCall && CalleeName(ci) == "builtin:append" {
+					break // the append itself (it may write into spare capacity, never over an element)
+				}
+				bad = append(bad, p.InstrPos(a.Instr)+": an element of the pool is overwritten while a backend is added")
+			case "escape":
+				bad = append(bad, p.InstrPos(a.Instr)+": the pool's address escapes while a backend is added")
+			}
+			if strings.HasPrefix(a.Kind, "method:") {
+				bad = append(bad, p.InstrPos(a.Instr)+": "+a.Kind)
+			}
+		}
+		instrsOf(f, func(in ssa.Instruction) {
+			ci, ok := in.(ssa.CallInstruction)
+			if !ok {
+				return
+			}
+			n := CalleeName(ci)
+			for i, arg := range ci.Common().Args {
+				d := p.Desc(arg, nil)
+				if !strings.Contains(d, "fld:"+key) {
+					continue
+				}
+				switch {
+				case n == "builtin:append" && i == 0:
+					appended = true
+				case n == "builtin:len" || n == "builtin:cap":
+				case n == "builtin:append":
+					// the pool appended to something else: harmless here
+				default:
+					bad = append(bad, fmt.Sprintf("%s: the pool is handed to %s while a backend is added: anything that permutes it (a sort by name, a compaction) changes the index of existing backends, and jump hash maps clients to indices — clients move between old backends", p.InstrPos(ci), n))
+				}
+			}
+		})
+	}
+	if !appended {
+		bad = append(bad, p.Pos(fn.Pos())+": the backend is not added by append(pool, backend)")
+	}
+	if len(bad) == 0 {
+		c.Pass("consistent-append-only", construct, p.Pos(fn.Pos()), "the pool is extended by append only; no element store, no call receives the pool")
+	} else {
+		c.Fail("consistent-append-only", construct, p.Pos(fn.Pos()), bad[0], bad...)
+	}
 }
